@@ -5,7 +5,7 @@ import re
 
 from .charset import CS, NON_XML, PredEval, Unknown, decode_entity
 from .common import lib_reachable, short, src_fn, where
-from .exprs import closure_of, strip
+from .exprs import closure_of, mentions, strip
 from .grammar import GrammarError, load_parser_module
 from .mirlib import Expr, Program, expr_str
 
@@ -83,19 +83,94 @@ class SinkAnalysis:
         prog = self.prog
         b = prog.bodies.get(path)
         if b is not None and b["argc"] == 1:
-            rets = Expr(prog, path).returns()
-            if len(rets) == 1:
-                r = strip(rets[0])
+            ex = Expr(prog, path)
+            sl = prog.slicer(path)
+            table = None
+            raw_guards = []   # predicate fns under whose *absence* the input is returned unchanged
+            bad_shape = False
+            defs0 = [(kind, d, bid) for kind, d, bid in sl.defs.get(0, ()) if kind in ("assign", "call")]
+            for kind, d, bid in defs0:
+                if kind == "call":
+                    r = ("call", Program.callee_name(d), tuple(ex.operand(a) for a in d["args"]), bid)
+                else:
+                    r = ex._rvalue(d["rv"], bid, 0)
+                r = strip(r)
                 if r[0] == "call" and re.search(r"Iterator::collect$", r[1]):
                     m = strip(r[2][0])
                     if m[0] == "call" and re.search(r"Iterator::map$", m[1]) and len(m[2]) == 2:
                         src = strip(m[2][0])
                         f = m[2][1]
                         if src[0] == "call" and re.search(r"str::<impl str>::chars$|str>::chars$", src[1]) and strip(src[2][0]) == ("param", 1, ()):
-                            if f[0] == "fn" and f[1] in prog.bodies:
-                                res = self._char_table(f[1])
+                            if f[0] == "fn" and f[1] in prog.bodies and table is None:
+                                table = self._char_table(f[1])
+                                continue
+                    bad_shape = True
+                elif r == ("param", 1, ()) or (r[0] == "call" and re.search(r"to_string$|to_owned$|String as core::convert::From<&str>>::from$", r[1]) and strip(r[2][0]) == ("param", 1, ())):
+                    # a fast path returning the input unchanged: only acceptable under `!s.chars().any(pred)`
+                    from .common import guards
+                    pred = None
+                    for c, tk, sw in guards(prog, path, bid):
+                        c = strip(c)
+                        if c[0] == "call" and re.search(r"Iterator::any$|Iterator>::any$", c[1]) and tk == 0:
+                            srcc = strip(c[2][0])
+                            fn = c[2][1]
+                            if mentions(srcc, lambda z: z[0] == "call" and z[1].endswith("str::<impl str>::chars") and strip(z[2][0]) == ("param", 1, ())) and fn[0] == "fn":
+                                pred = fn[1]
+                    if pred is None:
+                        bad_shape = True
+                    else:
+                        raw_guards.append(pred)
+                else:
+                    bad_shape = True
+            if table is not None and not bad_shape:
+                res = dict(table)
+                for pred in raw_guards:
+                    ps = self._pred_set(pred)
+                    if ps is None:
+                        res = dict(res)
+                        res["problems"] = res["problems"] + ["fast path guarded by %s, which is not interpretable" % short(pred)]
+                    else:
+                        # characters outside the predicate pass through unchanged whenever the whole run avoids the predicate
+                        res["identity"] = res["identity"] | (~ps)
+                        res["dropped"] = res["dropped"] - (~ps) if False else res["dropped"]
+                        res["fast_path"] = short(pred)
         self.escapers[path] = res
         return res
+
+    def _pred_set(self, fpath):
+        """character set of a workspace `fn(char) -> bool` (syntax tree of its file)"""
+        prog = self.prog
+        fb = prog.bodies.get(fpath)
+        if fb is None:
+            return None
+        file = fb["span"]["file"]
+        from .common import src_file
+        f, v = src_file(self.run, file)
+        if v is None:
+            return None
+        fns = {}
+
+        def scan(items):
+            for it in items:
+                if not isinstance(it, dict):
+                    continue
+                if it.get("k") == "fn" and not it.get("test"):
+                    ins = it["sig"]["inputs"]
+                    if len(ins) == 1 and (ins[0].get("ty") or "").replace(" ", "") == "char" and (it["sig"].get("ret") or "").replace(" ", "") == "bool":
+                        fns[it["name"]] = it
+                elif it.get("k") == "impl":
+                    scan(it["items"])
+                elif it.get("k") == "mod" and it.get("inline") and not it.get("test"):
+                    scan(it["items"])
+
+        scan(v["items"])
+        name = fpath.split("::")[-1]
+        if name not in fns:
+            return None
+        try:
+            return PredEval(fns).fn_set(name)
+        except Unknown:
+            return None
 
     def _char_table(self, fpath):
         """interpret `fn f(ch: char) -> .. { match ch { pat => replacement, .. } }` from the syntax tree"""
